@@ -261,6 +261,26 @@ class Ctx:
             c[0] = 0xfe
         return rej + bytes(c)
 
+    def sk_tape(s, extra=16, random_chunks=2):
+        """a tape for `KeGroup::random_sk` (rejection sampling over chunks of the private-key length; for P-521 only
+        one chunk in 128 is below the order): `random_chunks` uniform chunks - accepted or rejected as they come -
+        then one chunk that is certainly a valid key, then `extra` uniform bytes.  Never exhausted."""
+        L = s.L
+        n = 64 if L.ke == "R255" else L.Nsk
+        c = bytearray(s.tape(n))
+        if L.ke == "P521":
+            c[0] &= 1
+            if c[0] == 1 and c[1] == 0xff:
+                c[1] = 0xfe
+        elif L.ke in ("P256", "P384"):
+            if c[0] == 0xff:
+                c[0] = 0xfe
+            if not any(c):
+                c[-1] = 1
+        elif L.ke == "R255" and not any(c):
+            c[0] = 1
+        return s.tape(n * random_chunks) + bytes(c) + s.tape(extra)
+
     def btape(s, extra=256, rejections=0):
         """a tape for an operation that starts with a blind: blind draw + `extra` uniform bytes"""
         return s.blind_draw(rejections) + s.tape(extra)
